@@ -1,11 +1,12 @@
 // c21: quote / quasiquote in the fast and the classic interpreter.
 // For every generated template (source text with ~quote / ~quasiquote / ~unquote / ~unquote_splice):
-//   direct oracles (never the Coq model):
-//     O1  fast tree == classic tree (strict, position-insensitive structural equality on go/ast)
-//     O2  both == reference substitution computed here on wrapper-normalised trees
-//     O3  freshness: the same compiled form evaluated twice/thrice returns trees that share no node except
-//         nodes of the unquoted values, and mutating the first result changes neither the second nor a third
-//   correspondence: cases_NNN.v = template + environment + observed trees as Rose terms, evaluated by coq/C21/Model.v
+//
+//	direct oracles (never the Coq model):
+//	  O1  fast tree == classic tree (strict, position-insensitive structural equality on go/ast)
+//	  O2  both == reference substitution computed here on wrapper-normalised trees
+//	  O3  freshness: the same compiled form evaluated twice/thrice returns trees that share no node except
+//	      nodes of the unquoted values, and mutating the first result changes neither the second nor a third
+//	correspondence: cases_NNN.v = template + environment + observed trees as Rose terms, evaluated by coq/C21/Model.v
 package main
 
 import (
@@ -203,7 +204,7 @@ func (g *gen) expr(d int) string {
 	if d <= 0 {
 		return g.primary(d)
 	}
-	if g.qd >= 1 && g.qd < g.maxqd && g.rng.Chance(1, 12) {
+	if g.qd >= 1 && g.qd < g.maxqd && g.rng.Chance(1, 5) {
 		return g.nested(func() string {
 			if g.rng.Chance(1, 3) {
 				return g.stmtList(d-1, 2, true)
@@ -307,7 +308,7 @@ func (g *gen) stmt(d int) string {
 	if d <= 0 {
 		return g.simpleStmt(0)
 	}
-	if g.qd >= 1 && g.qd < g.maxqd && g.rng.Chance(1, 10) {
+	if g.qd >= 1 && g.qd < g.maxqd && g.rng.Chance(1, 4) {
 		return g.nested(func() string {
 			if g.rng.Chance(1, 2) {
 				return g.stmtList(d-1, 3, true)
@@ -319,7 +320,7 @@ func (g *gen) stmt(d int) string {
 	case 0:
 		return g.id() + ", " + g.id() + " := " + g.expr(d-1) + ", " + g.expr(d-1)
 	case 1:
-		return g.operand(d-1) + ", " + g.id() + " = " + g.exprList(d-1, 2, true) + g.expr(d-1)
+		return g.operand(d-1) + ", " + g.id() + " = " + g.expr(d-1) + ", " + g.expr(d-1)
 	case 2:
 		return g.id() + []string{" += ", " -= ", " |= ", " <<= "}[g.rng.Intn(4)] + g.expr(d-1)
 	case 3:
@@ -402,7 +403,7 @@ func (g *gen) stmt(d int) string {
 		case 1:
 			return "var " + g.id() + ", " + g.id() + " " + g.typ() + " = " + g.expr(d-1) + ", " + g.expr(d-1)
 		case 2:
-			return "var " + g.id() + " = " + g.exprList(d-1, 1, true) + g.expr(d-1)
+			return "var " + g.id() + " = " + g.expr(d-1)
 		}
 		return "var ( " + g.id() + " = " + g.expr(d-1) + "; " + g.id() + " " + g.typ() + " )"
 	case 17:
@@ -948,6 +949,7 @@ func main() {
 		{"~quasiquote{g(~,@le0)}", "C21-fast-empty-splice"},
 		{"~quasiquote{~unquote_splice{le1}}", "C21-top-splice-short"},
 		{"~quasiquote{~quote{}}", "C21-nested-empty-body"},
+		{"~quasiquote{~quote{var x int}}", "C21-fast-nested-decl-body"},
 		{"~quasiquote{~quasiquote{1; ~unquote{2}; ~unquote{~unquote_splice{le2}}}}", ""},
 		{"~quasiquote{~quasiquote{1; ~unquote_splice{~unquote_splice{le2}}}}", ""},
 		{"~quasiquote{~quasiquote{~quasiquote{1; ~unquote{~unquote{~unquote_splice{le3}}}}}}", ""},
